@@ -137,7 +137,11 @@ func runClient(w *World, h http.Handler, p TunnelPlan, o *TunnelObs) {
 		}
 	} else {
 		var ok bool
-		c, ok = w.OpenTunnel(p.Kind, h, nil, p.ConnID, p.IP+":40000", id, nil)
+		var extra http.Header
+		if p.StopAt == "accepted" {
+			extra = http.Header{"X-Verif-No-Preamble": {"1"}}
+		}
+		c, ok = w.OpenTunnel(p.Kind, h, nil, p.ConnID, p.IP+":40000", id, extra)
 		o.ClientConns = append(o.ClientConns, c.Conn)
 		if c.In != nil {
 			o.ClientConns = append(o.ClientConns, c.In)
@@ -172,7 +176,7 @@ func runClient(w *World, h http.Handler, p TunnelPlan, o *TunnelObs) {
 		{"ta", tsgu.TunnelAuth("pc"), tsgu.TypeTunnelAuthResp},
 		{"cc", tsgu.ChannelCreate(hostOf(p.Host), portOf(p.Host)), tsgu.TypeChannelResp},
 	}
-	if p.StopAt != "open" {
+	if p.StopAt != "open" && p.StopAt != "accepted" {
 		for _, s := range steps {
 			c.SendSegment(s.pkt)
 			if !expect(s.resp) {
@@ -198,6 +202,9 @@ func runClient(w *World, h http.Handler, p TunnelPlan, o *TunnelObs) {
 			} else {
 				c.SendSegment(tsgu.Handshake(1, 0, 0, tsgu.ExtAuthPAA))
 			}
+		case op == "badcc":
+			// a second CHANNEL_CREATE on a tunnel whose channel exists
+			c.SendSegment(tsgu.ChannelCreate(hostOf(p.Host), portOf(p.Host)))
 		case op == "garbage":
 			c.SendSegment([]byte{0xA, 0, 0, 0, 3, 0, 0, 0, 1, 2})
 			c.SendSegment([]byte{9, 9, 9})
